@@ -3,4 +3,9 @@
 # (under the same lock as the checks' own build, so that it can run beside them)
 mkdir -p /verif/build
 cd /verif && /venv/bin/python -c "
-import sys; sys.path.insert(0,'harness'); import core; core.write_coqproject()" && cd coq && (coq_makefile -f _CoqProject -o Makefile >/dev/null) && flock /verif/build/.build.lock timeout 3000 make -k -j16 2>&1 | grep -v "^COQC\|^COQDEP\|^make\|Closed under the global context" | head -${1:-40}
+import sys; sys.path.insert(0,'harness'); import core, gen_model
+t,e=gen_model.generate_all('/repo')
+for m,x in t.items():
+    p='coq/Generated/%s.v'%m
+    if not __import__('os').path.exists(p) or open(p).read()!=x: open(p,'w').write(x)
+core.write_coqproject()" && cd coq && (coq_makefile -f _CoqProject -o Makefile >/dev/null) && flock /verif/build/.build.lock timeout 3000 make -k -j16 2>&1 | grep -v "^COQC\|^COQDEP\|^make\|Closed under the global context" | head -${1:-40}
